@@ -1127,7 +1127,12 @@ pub fn generate(seed: u64, focus: Focus, faults: bool) -> RunDesc {
             .collect();
         if !candidates.is_empty() {
             let i = *fault_rng.pick(&candidates);
-            let kind = *fault_rng.pick(POISONS);
+            let kind = if focus == Focus::Defaults {
+                // the faults C06 cares about are refusals caused by defaults
+                *fault_rng.pick(&["bad-default", "int-default-range", "bad-default", "bad-pattern"])
+            } else {
+                *fault_rng.pick(POISONS)
+            };
             let clean_copy = ops[i].clone();
             poison_op(&mut fault_rng, &mut ops[i], kind);
             // the client's retry: the same call without the offending part,
@@ -1143,6 +1148,17 @@ pub fn generate(seed: u64, focus: Focus, faults: bool) -> RunDesc {
                     }
                 }
                 ops.insert(at, clean_copy);
+            } else if fault_rng.chance(1, 2) {
+                // or the client simply sends the failed call again, unchanged
+                let at = fault_rng.range(i + 1, ops.len());
+                for op in ops.iter_mut() {
+                    if let Op::ReAdd { of } = op {
+                        if *of >= at {
+                            *of += 1;
+                        }
+                    }
+                }
+                ops.insert(at, Op::ReAdd { of: i });
             }
         }
     }
